@@ -1354,6 +1354,64 @@ class Program:
         self._cg = None
         self._rcg = None
 
+    ADAPTERS = ("map", "filter_map", "for_each", "flat_map", "filter", "fold", "try_for_each", "inspect", "and_then", "then", "map_or", "map_or_else", "is_some_and", "any", "all", "find", "find_map")
+
+    def find_call_sites(self, fid, pred):
+        """calls satisfying pred in function fid, in the closures written inside it and in the helpers spliced into it:
+        -> list of (Fn that holds the call, Call)"""
+        out = []
+        spliced = {b.get("inl") for b in self.fns[fid].d.get("blocks", []) if b.get("inl")} if fid in self.fns else set()
+        for k in self.family(fid):
+            g = self.fns[k]
+            if "{promoted" in k or k in spliced:
+                continue        # a spliced helper's own calls are present in the caller's copy
+            for c in g.calls:
+                if c.bb in g.reach_blocks and pred(c):
+                    out.append((g, c))
+        return out
+
+    def iteration_sources(self, fid, g, call, depth=4):
+        """what a call site is repeated over, whether the repetition is a `for` loop or an iterator adapter that was handed the closure holding
+        the call: list of canonical origin texts (innermost first) of the iterated collections / adapter receivers up to function fid"""
+        out = []
+        for h in g.enclosing_loop_heads(call.bb):
+            hc = g.call_at(h)
+            if hc is not None and hc.args:
+                out.append(g.describe_origin(g.origin(hc.args[0]), deep=depth))
+        cur = g
+        guard = 0
+        while cur.id != fid and "::{closure" in cur.id and guard < 6:
+            guard += 1
+            parent_id = cur.id.rsplit("::{closure", 1)[0]
+            cands = [parent_id] + [k for k in self.fns if fid in self.fns and parent_id in [b.get("inl") for b in self.fns[k].d.get("blocks", [])]]
+            found = False
+            for pid in cands:
+                par = self.fns.get(pid)
+                if par is None:
+                    continue
+                for c in par.calls:
+                    if not c.args or c.bb not in par.reach_blocks:
+                        continue
+                    for a in c.args[1:]:
+                        o = par.origin(a)
+                        cid = o[1].get("closure") if o[0] in ("aggr", "const") and isinstance(o[1], dict) else None
+                        if cid == cur.id:
+                            out.append(par.describe_origin(par.origin(c.args[0]), deep=depth))
+                            for h in par.enclosing_loop_heads(c.bb):
+                                hc = par.call_at(h)
+                                if hc is not None and hc.args:
+                                    out.append(par.describe_origin(par.origin(hc.args[0]), deep=depth))
+                            cur = par
+                            found = True
+                            break
+                    if found:
+                        break
+                if found:
+                    break
+            if not found:
+                break
+        return out
+
     def family(self, fid):
         """the bodies that make up function fid for a rule that reads "everything written inside it": the function, its closures and promoted
         constants, and the same for every helper that was spliced into it"""
